@@ -29,6 +29,8 @@ FileOps ==
 \* systematic family: every integer of the first records of every keyword the models use, perturbed in every way
 KwNames == {"ACTDIMS", "ACTIONX", "COMPDAT", "COMPSEGS", "DATES", "DENSITY", "DIMENS", "DX", "DY", "DZ", "EQLDIMS", "EQLNUM", "EQLOPTS", "EQUIL", "FAULTDIM", "FAULTS", "FLUXNUM", "GCONPROD", "GEFAC", "GRUPTREE", "MULTFLT", "MULTREGT", "NNC", "PERMX", "PERMY", "PERMZ", "PLMIXPAR", "PLYADS", "PLYMAX", "PLYROCK", "PLYSHLOG", "PLYVISC", "PORO", "PVTG", "PVTNUM", "PVTO", "PVTW", "REGDIMS", "ROCKCOMP", "ROCKTAB", "RPTRST", "RPTSCHED", "RPTSOL", "RSVD", "SATNUM", "SGFN", "SGOF", "SOF3", "START", "SWFN", "SWOF", "TABDIMS", "THPRES", "TOPS", "TRACER", "TRACERS", "UDQ", "UDQDIMS", "VFPPDIMS", "VFPPROD", "WCONINJE", "WCONPROD", "WELLDIMS", "WELOPEN", "WELSEGS", "WELSPECS", "WELTARG", "WSEGDIMS", "WTEST"}
 SweepOps == [op : {"BumpKwInt"}, kw : KwNames, tok : 0..7, how : {"plus1", "minus1", "times10", "zero", "negative", "huge"}]
+            \* ... and every one of the first records of every keyword made longer (its last value repeated) or shorter
+            \cup [op : {"ResizeRecord"}, kw : KwNames, rec : 0..15, by : {-1, 1, 4}]
 VARIABLES kind, script
 vars == <<kind, script>>
 CONSTANT Sweep
